@@ -40,6 +40,9 @@ ASSUMPTIONS = [
     'does not draw entropy); what is judged is only whether a call draws from the entropy source while it runs '
     'and whether two calls return the same secret/owner salt/seed/encrypted key',
     'confirmation codes are not checked',
+    'Key.address(compressed=x) / address_uncompressed() change key.compressed (a getter with a side effect, modelled '
+    'as intended behaviour by the C12 check): a later encrypt() is compared with the reference for the flag the '
+    'object has at that moment',
     'in the key-object history sub-space the library\'s own scrypt is memoised per case (a pure function; each '
     'distinct input is still computed by the library\'s scrypt once)',
     'the published vectors have fixed passphrases (ASCII; the unicode vector of the BIP text is added in decomposed '
@@ -234,8 +237,12 @@ def sub_hist(case):
             last = [op for op, r in zip(hist, raised) if not r and op.startswith('address_')]
             if enc is None:
                 sig = 'Key.encrypt after %s|raises' % _hist_class(hist)
-            elif enc == bip38.encrypt(k, not comp, pw, ver) and bool(key.compressed) != comp:
-                sig = 'Key.encrypt after address(compressed=other)|compression_flag_of_key_changed_by_address_call'
+            elif bool(key.compressed) != comp and enc == bip38.encrypt(k, not comp, pw, ver):
+                # address(compressed=x) / address_uncompressed() switch the key object to that form (the C12 model
+                # treats this as the library's semantics); the encryption is then the reference one for the
+                # object's flag at the time of the call - not judged here
+                outs.append('reference_for_flag_set_by_address_call')
+                continue
             else:
                 r = bip38.decrypt(enc, pw, ver)
                 raw = codec.b58check_decode(enc)
